@@ -983,6 +983,10 @@ func runC20(c *ev.Ctx) {
 			cases = append(cases, cs)
 		}
 	}
+	// every sample count 1..40 (fewer than, as many as, more than the 16 writer goroutines)
+	for sv := 1; sv <= 40; sv++ {
+		cases = append(cases, c20Case{S: sv, N: []int{64, 256, 20000}[sv%3], Out: outs[sv%6], Pre: outs[sv%6] == "pre", CPUs: []int{0, 0, 1, 2, 3}[sv%5], Accept: sv%3 == 2 && sv <= 20})
+	}
 	// every -o variant at a supported size, with acceptance
 	for _, o := range outs {
 		cases = append(cases, c20Case{S: 5, N: 20000, Out: o, Pre: o == "pre", CPUs: []int{0, 1, 2}[r.Intn(3)], Accept: true})
